@@ -4,7 +4,7 @@ from hypothesis import strategies as st
 
 from vlib import strategies as vs
 from vlib.models.kdq_detectors import KdqBatchModel, KdqStreamModel
-from vlib.runner import SubCheck, Violation, sut
+from vlib.runner import Decoy, SubCheck, Violation, sut
 from vlib.tolerant import Forker
 
 
@@ -28,9 +28,18 @@ def check_batch(case, ctx):
     base = case["seed_base"]
     with sut(detector="KdqTreeBatch"):
         det = KdqTreeBatch(**p)
+    p_other = dict(p)
+    p_other["alpha"] = 0.5 if p["alpha"] < 0.3 else 0.01
+    # same data, other significance level, updated first: a value cached per reference without its alpha would leak
+    decoy = Decoy(lambda: KdqTreeBatch(**p_other), lambda d, X_, first: (d.set_reference(X_) if first else d.update(X_)), every=1)
+    decoy_seed = Decoy(lambda: KdqTreeBatch(**p), lambda d, X_, first: (d.set_reference(X_) if first else d.update(X_)), every=1)
     fk = Forker(KdqBatchModel(p["alpha"], p["bootstrap_samples"], p["count_ubound"]), copier=lambda m: m.clone())
     for i, B in enumerate(items):
         X = np.array(B, dtype=float)
+        np.random.seed(base + i)
+        decoy.step(X.copy(), i == 0 and case.get("use_set_reference", True))
+        np.random.seed(base + i + 7919)  # same parameters and data, other random numbers
+        decoy_seed.step(X.copy(), i == 0 and case.get("use_set_reference", True))
         with sut(detector="KdqTreeBatch"):
             np.random.seed(base + i)
             if i == 0 and case.get("use_set_reference", True):
@@ -100,6 +109,10 @@ def check_stream(case, ctx):
     every = case.get("plot_every", 4)
     with sut(detector="KdqTreeStreaming"):
         det = KdqTreeStreaming(**p)
+    p_other = dict(p)
+    p_other["alpha"] = 0.5 if p["alpha"] < 0.3 else 0.01
+    decoy = Decoy(lambda: KdqTreeStreaming(**p_other), lambda d, X_: d.update(X_), every=1)
+    decoy_seed = Decoy(lambda: KdqTreeStreaming(**p), lambda d, X_: d.update(X_), every=1)
     fk = Forker(
         KdqStreamModel(p["window_size"], p["persistence"], p["alpha"], p["bootstrap_samples"], p["count_ubound"]),
         copier=lambda m: m.clone(),
@@ -107,6 +120,10 @@ def check_stream(case, ctx):
     )
     for i, row in enumerate(items):
         X = np.array([row], dtype=float)
+        np.random.seed(base + i)
+        decoy.step(X.copy())
+        np.random.seed(base + i + 7919)
+        decoy_seed.step(X.copy())
         with sut(detector="KdqTreeStreaming"):
             np.random.seed(base + i)
             det.update(X)
